@@ -22,9 +22,9 @@ CLAIM = dict(
          "over multisets of 2-5 contributors, each built in its own Types collection, under ALL permutations of the "
          "contributor order; the specification predicates are evaluated on the implementation's own observations.",
     design_ref="DESIGN.md §5 C09, Appendix A.5, Appendix B",
-    note="Six defects of the real aggregator were found; two are repaired in the repository (commits 874f221, 0bf540d; the "
-         "model follows the repaired code and their witnesses are regression cases), four remain known findings (see "
-         "known-findings.json). Not proved: 'failure only on conflict' and order independence of SUCCESS even "
+    note="Six defects of the real aggregator were found; three are repaired in the repository (commits 874f221, 0bf540d, and "
+         "the per-mention copy of anonymous interfaces; the model follows the repaired code and their witnesses are regression "
+         "cases), three remain known findings (see known-findings.json). Not proved: 'failure only on conflict' and order independence of SUCCESS even "
          "for flat requirements (needs completeness of the checker at the given fuel and panic-freedom of the copy); `use`d "
          "types and resources are covered by the model, the correspondence and the executable specification only. "
          "Trusted: Coq kernel; extraction; OCaml driver; Rust harness; the hand-written models Types.v/Checker.v/"
@@ -33,21 +33,13 @@ CLAIM = dict(
               "monotonicity of accepting checker verdicts) + extracted-model correspondence under all permutations + "
               "executable specification evaluated on implementation observations")
 
-# Findings of this check.  Recorded in /verif/known-findings.json by the main session: `nested-instance-not-united` and
-# `remapped-defined-onto-primitive-panic` as "fixed" (repository commits 0bf540d, 874f221: they suppress nothing, their
-# witnesses are regression cases in corpus/C09/cases.txt), the three below as "known".  The local copy keeps the check
+# Findings of this check.  Recorded in /verif/known-findings.json by the main session: `nested-instance-not-united`,
+# `remapped-defined-onto-primitive-panic` and `nested-interface-with-two-parents` as "fixed" (repository commits 0bf540d,
+# 874f221 and the per-mention copy of anonymous interfaces: they suppress nothing, their witnesses are regression cases in
+# corpus/C09/cases.txt), the three below as "known".  The local copy keeps the check
 # self-contained (signature, witness); an entry marked "fixed" in known-findings.json is dropped at run time.
 # Signatures are computed by `signatures()`.
 PROPOSED_KNOWN = [
-    dict(property="C09", id="nested-interface-with-two-parents", status="known",
-         signature="one contributor mentions the SAME anonymous interface under two instance exports (`n: I, m: I`): "
-                   "remap_interface copies it once (the `remapped` memo), so a later merge below one export also changes "
-                   "the other",
-         witness="agg\t2\tF 0 0 - ; I - 0 1 f f:0 ; I - 0 2 n i:0 m i:0\tF 0 0 - ; I - 0 1 g f:0 ; I - 0 1 n i:0\t2\tfoo 0 i:1\tfoo 1 i:1",
-         text="foo:{n:I, m:I} with I={f}, then foo:{n:{g}}: the merged tree is {n:{f,g}, m:{f,g}} (strictly more demanding than "
-              "the union {n:{f,g}, m:{f}}); with a third contributor foo:{m:{g: func(x:u8)}} success depends on the order. Coq: "
-              "instance_merge_is_union_nested_refuted, fails_iff_conflict_nested_refuted. Repair candidate: "
-              "hooks/fix-c09-nested-shared-interface.patch (not applied: needs the same change in Aggregator.v)"),
     dict(property="C09", id="component-imports-united", status="known",
          signature="merge_world: imports of two component requirements are merged by UNION (a new import of the contributor "
                    "is inserted), which yields a supertype, not a subtype, of the contributors",
@@ -366,8 +358,6 @@ def track_of(name):
 
 
 ALLOWED = {
-    "nested-interface-with-two-parents": {"merged-tree-not-union", "order-dependent-success", "fails-without-conflict",
-                                          "order-dependent-result"},
     "component-imports-united": {"upper-bound", "upper-bound-spec", "order-dependent-result"},
     "interface-id-under-two-import-names": {"order-dependent-result", "merged-tree-not-union", "export-order-not-first-seen",
                                             "order-dependent-success", "fails-without-conflict", "succeeds-despite-conflict"},
@@ -383,16 +373,15 @@ def signatures(case, impl, model):
     reqs = fi[0].split(";"); sc = mf[3].split(",")
     s = set()
     shared = shared_id_sig(cf, sc)
-    # (nested_instance_sig / alias_prim_sig classified the two findings repaired by repository commits 0bf540d and
-    #  874f221; they suppress nothing any more: their witnesses are regression cases in corpus/C09/cases.txt)
+    # (nested_instance_sig / alias_prim_sig / two_parents_sig classified the three findings repaired in the repository
+    #  (commits 0bf540d, 874f221, and the per-mention copy of anonymous interfaces); they suppress nothing any more: their
+    #  witnesses are regression cases in corpus/C09/cases.txt)
     if component_sig(names, reqs, sc):
         s.add("component-imports-united")
     if owner_sig(cf):
         s.add("owner-import-bypasses-canonical-name")
     if shared:
         s.add("interface-id-under-two-import-names")
-    if two_parents_sig(cf, k):
-        s.add("nested-interface-with-two-parents")
     return s
 
 
